@@ -47,7 +47,7 @@ def sig_kind(ea, eb):
 def execute(st, ctx):
     out = Outcome()
     ch = st.scenario
-    cfg = draw_cfg(ch, logging_only=True)
+    cfg = draw_cfg(ch, logging_only=True, huge=True)
     sim = new_sim(st)
     ntenants = 1 + ch.weighted([6, 3, 1])
     tenants = []
